@@ -236,3 +236,43 @@ def replay(ctx, data):
     rep = O.Reporter(sub, max_shrinks=0)
     one_case(sub, rep, None, c, L[c.name], v, trig, "replay", sub.rng)
     return not sub.violations
+
+
+# --- nested compositional tier (task W14): OdxVerif.Props.C08Nested rests on Proofs/FieldTierPure.lean, which cannot be imported into
+# the same environment as Proofs/StructStatic.lean (Props/C08Struct.lean): both define `Trees.enc_cursor`.  The module is therefore built
+# and audited on its own (own audit file lean/Audit/C08Nested.lean); every theorem is recorded as an obligation of C08 like the others.
+NESTED_TARGET = "OdxVerif.Props.C08Nested"
+EXTRA_LEAN_TARGETS = [NESTED_TARGET]      # built by setup.sh (harness/targets.py), audited by audit_nested below
+NESTED_THEOREMS = ["OdxVerif.Codec." + t for t in ["C08_static_length_nested_partial", "C08_static_value_nested", "C08_fields_no_static_length",
+                                                    "C08_field_kinds_none", "C08_required_iff_not_omittable", "C08_required_nested",
+                                                    "C08_required_nested_depth", "C08_not_required_nested", "static_length_nested",
+                                                    "StaticP.sound", "DescribedP.fill_none"]]
+
+
+def audit_nested(ctx):
+    """build + `#print axioms` of the nested-tier module in an environment of its own"""
+    import re
+    import common
+    rc, out = common.sh(["lake", "build", NESTED_TARGET], cwd=common.LEAN)
+    if rc != 0:
+        for t in NESTED_THEOREMS:
+            ctx.obligation(t, False, "build of %s failed" % NESTED_TARGET)
+        raise RuntimeError("lake build %s failed: %s" % (NESTED_TARGET, " | ".join([l for l in out.splitlines() if "error" in l][:5])))
+    audit = common.LEAN / "Audit" / "C08Nested.lean"
+    audit.parent.mkdir(parents=True, exist_ok=True)
+    audit.write_text("import %s\n" % NESTED_TARGET + "\n".join("#print axioms %s" % t for t in NESTED_THEOREMS) + "\n")
+    rc, out = common.sh(["lake", "env", "lean", str(audit)], cwd=common.LEAN)
+    text = out.replace("\n  ", " ")
+    axioms = {}
+    for m in re.finditer(r"'([^']+)' (depends on axioms: \[([^\]]*)\]|does not depend on any axioms)", text):
+        axioms[m.group(1)] = set(a.strip() for a in (m.group(3) or "").split(",") if a.strip())
+    for t in NESTED_THEOREMS:
+        if t in axioms and axioms[t] <= common.STD_AXIOMS:
+            ctx.obligation(t, True, "axioms: " + ",".join(sorted(axioms[t])))
+        elif t in axioms:
+            ctx.obligation(t, False, "non-standard axioms: " + ",".join(sorted(axioms[t] - common.STD_AXIOMS)))
+        else:
+            ctx.obligation(t, False, "theorem not found in compiled environment")
+
+
+GENERATORS = list(globals().get("GENERATORS", [])) + [audit_nested]
